@@ -643,6 +643,7 @@ theorem N_evalStep (impl : FmtImpl) {cfg : Cfg} (href : RefOnly cfg) (inst schem
     · exact N_withScopeOpt H _ (N_schemaBody H hrec impl href inst hs)
     · exact N_crashG H _
   · exact N_crashG H _
+  · exact N_crashG H _
 
 end KwNR
 
@@ -996,9 +997,16 @@ theorem withScopeOpt_done (env : Env) (scope : Option Str) (st : RState) {g0 : G
     | none => rw [hu] at h; cases h
     | some u => exact ⟨{ st with scopes := u :: st.scopes }, fun g => ⟨rfl, rfl⟩⟩
 
-theorem scopeOf_alone (cfg : Cfg) (kvs : List (Str × Json)) (k : Str) :
+theorem scopeOf_alone (cfg : Cfg) (kvs : List (Str × Json)) (k : Str)
+    (hnr : Spec.noRef (.obj kvs) = true) :
     scopeOf cfg (aloneKvs cfg kvs k) = scopeOf cfg kvs := by
-  unfold scopeOf aloneKvs
+  have h1 : Json.hasKey (skey "$ref") kvs = false := by
+    unfold Json.hasKey; rw [noRef_lookup_ref hnr]; rfl
+  have h2 : Json.hasKey (skey "$ref") (aloneKvs cfg kvs k) = false := by
+    unfold Json.hasKey aloneKvs; rw [noRef_lookup_ref (noRef_filter _ hnr)]; rfl
+  unfold scopeOf
+  rw [h1, h2]
+  unfold aloneKvs
   rw [lookup_filter]
   intro p hp
   simp [hp]
@@ -1103,7 +1111,7 @@ theorem union_step (env : Env) (impl : FmtImpl) {cfg : Cfg} (F : KwFacts cfg) {r
     rw [List.map_flatMap]
     apply flatMap_congr_mem
     intro kv hkv
-    rw [evalStep_obj_run env impl cfg rec i (hnrA kv.1) ((scopeOf_alone cfg kvs kv.1).trans hsc),
+    rw [evalStep_obj_run env impl cfg rec i (hnrA kv.1) ((scopeOf_alone cfg kvs kv.1 hnr).trans hsc),
       (hst1 _).1]
     have hsim : ∀ kv' : Str × Json,
         OutSim (runKeyword env impl cfg rec i (.obj (aloneKvs cfg kvs kv.1)) kv' none st1)
